@@ -271,15 +271,14 @@ def get_vxc_nldf(
         for idm in range(nset):
             wv_full[idm, :, :] += ni.nldfgen.get_potential(vxc_nldf_full[idm])
 
-    for i, ip0, ip1, ao, mask, weight, coords in block_loop(ao_deriv):
-        for idm in range(nset):
-            rho = np.ascontiguousarray(rho_full[idm, :, ip0:ip1])
-            wv = np.ascontiguousarray(wv_full[idm][:, ip0:ip1])
-            wv[0] *= 0.5
-            _gga_grad_sum_(vmat[idm], mol, ao, wv[:4], mask, ao_loc)
-            if xctype == "MGGA":
-                wv[4] *= 0.5
-                _tau_grad_dot_(vmat[idm], mol, ao, wv[4], mask, ao_loc, True)
+    for idm, ip0, ip1, ao, mask, weight, coords in block_loop(ao_deriv):
+        rho = np.ascontiguousarray(rho_full[idm, :, ip0:ip1])
+        wv = np.ascontiguousarray(wv_full[idm][:, ip0:ip1])
+        wv[0] *= 0.5
+        _gga_grad_sum_(vmat[idm], mol, ao, wv[:4], mask, ao_loc)
+        if xctype == "MGGA":
+            wv[4] *= 0.5
+            _tau_grad_dot_(vmat[idm], mol, ao, wv[4], mask, ao_loc, True)
 
     exc = None
     if nset == 1:
